@@ -120,24 +120,25 @@ def sweep_impl(rep, tier, seed):
                     ("extract_samps", lambda: fil.extract_samps(2, 9, o, gulp=gulp, quiet=True)),
                     ("apply_channel_mask", lambda: fil.apply_channel_mask(mask, 1, o, **kw)),
                     ("invert_freq", lambda: fil.invert_freq(o, **kw)),
-                    ("downsample", lambda: fil.downsample(2, 2, o, **kw)),
+                    # (ffactor such that one OUTPUT sample is a whole number of bytes: the writers' domain)
+                    ("downsample", lambda: fil.downsample(2, 1 if nbits == 1 else 2, o, **kw)),
                     ("requantize", lambda: fil.requantize(nbits, o, **kw)),
                     ("remove_zerodm", lambda: fil.remove_zerodm(o, **kw)),
                     ("subband", lambda: fil.subband(0.0, 2, o, **kw)),
-                    ("extract_bands", lambda: fil.extract_bands(0, 8, 4, os.path.join(tmp, "ob"), **kw)),
+                    ("extract_bands", lambda: fil.extract_bands(0, 8, max(4, 8 // nbits), os.path.join(tmp, "ob"), **kw)),
                     ("extract_chans", lambda: fil.extract_chans([1, 5], os.path.join(tmp, "oc"), **kw)),
                     # more output files than one batch of open writers: a later batch must not touch earlier files
                     # (bands of whole bytes per sample: a band narrower than a byte is outside the writers' domain - pack refuses it)
                     ("extract_bands", lambda: fil.extract_bands(0, 8, max(2, 8 // nbits), os.path.join(tmp, "obb"), batch_size=1, **kw)),
                     ("extract_chans", lambda: fil.extract_chans([1, 5, 6], os.path.join(tmp, "ocb"), batch_size=2, **kw)),
                     # sub-range requests (start > 0): whatever the header needs (tstart) must be written up front, not patched in
-                    ("downsample", lambda: fil.downsample(2, 2, o, start=3, nsamps=10, **kw)),
+                    ("downsample", lambda: fil.downsample(2, 1 if nbits == 1 else 2, o, start=3, nsamps=10, **kw)),
                     ("apply_channel_mask", lambda: fil.apply_channel_mask(mask, 1, o, start=3, nsamps=10, **kw)),
                     ("invert_freq", lambda: fil.invert_freq(o, start=2, nsamps=11, **kw)),
                     ("remove_zerodm", lambda: fil.remove_zerodm(o, start=3, nsamps=10, **kw)),
                     ("subband", lambda: fil.subband(0.0, 2, o, start=3, nsamps=10, **kw)),
                     ("extract_chans", lambda: fil.extract_chans([2, 4], os.path.join(tmp, "ocs"), start=3, nsamps=10, **kw)),
-                    ("extract_bands", lambda: fil.extract_bands(0, 8, 4, os.path.join(tmp, "obs"), start=3, nsamps=10, **kw)),
+                    ("extract_bands", lambda: fil.extract_bands(0, 8, max(4, 8 // nbits), os.path.join(tmp, "obs"), start=3, nsamps=10, **kw)),
                 ]
                 for what, call in ops:
                     inp = dict(writer=what, nbits=nbits, gulp=gulp)
